@@ -330,6 +330,10 @@ def check_escape(chk):
                     f'{s.exc} ({s.why}) can escape {entry}: no handler between the primitive and the API boundary (path {path}); '
                     f'the host application receives a Python exception instead of null / BareScriptRuntimeError', node=s.node,
                     detail={'entry': entry, 'path': path, 'exception': s.exc})
+    from ..raises import UNCERTAIN_CM
+    if UNCERTAIN_CM:
+        w, why = UNCERTAIN_CM[0]
+        chk.unrec('C05.E', f'exception containment below a with statement is not decided: {why} (line {getattr(w, "lineno", "?")}); {len(UNCERTAIN_CM)} site(s) of this kind', mod.rel)
     # OK instances: every primitive reachable that IS caught
     seen = set()
 
